@@ -711,6 +711,20 @@ def write_evidence(ctx, spec, results, violations, errors, kf_lines, mut_report,
         "wall_s": round(wall, 2),
         "violations": len(violations),
     }
+    # mutation self-test: results of THIS run if it ran (thorough tier / --mutants), else the last
+    # recorded self-test (clearly labelled as recorded earlier, not measured by this run)
+    mdir = os.path.join(VERIF, "evidence", "mutants")
+    mfile = os.path.join(mdir, ctx.pid + ".json")
+    if mut_report:
+        os.makedirs(mdir, exist_ok=True)
+        with open(mfile, "w") as f:
+            json.dump({"property": ctx.pid, "tier": ctx.tier, "recorded_at": time.strftime("%Y-%m-%dT%H:%M:%SZ", time.gmtime()),
+                       "killed": sum(1 for m in mut_report if m["status"] == "killed"), "total": len(mut_report),
+                       "mutants": [{k: m.get(k) for k in ("mutant", "file", "status", "change")} for m in mut_report]}, f, indent=1, sort_keys=True)
+        ev["coverage"]["mutation_selftest"] = {"this_run": True}
+    elif os.path.exists(mfile):
+        with open(mfile) as f:
+            ev["coverage"]["mutation_selftest"] = {"this_run": False, "last_recorded": json.load(f)}
     if errors:
         ev["coverage"]["internal_errors"] = [{"query": r["query"], "error": r.get("error", "")[:500]} for r in errors]
     os.makedirs(os.path.join(VERIF, "evidence"), exist_ok=True)
